@@ -35,7 +35,8 @@ class ExprMixin:
     def hazard(self, kind, safe, node=None, what="", state=None):
         if z3.is_true(safe):
             return
-        self.hz.append(Hazard(kind, self._wrap(safe), node, what, state))
+        cur = getattr(self, "cur_state", None)
+        self.hz.append(Hazard(kind, self._wrap(safe), node, what, state, pc_len=len(cur.pc) if (cur is not None and state is None) else None))
 
     def fact(self, st, f):
         st.assume(self._wrap(f))
